@@ -147,6 +147,8 @@ RV(st, x) == [st |-> st, res |-> x, err |-> FALSE]
 E(st) == [st |-> st, res |-> 0, err |-> TRUE]
 
 VecOps == {"VAdd", "VSub", "VMul", "VDiv"}
+BinOps == {"BAdd", "BSub", "BMul", "BDiv"}
+BinToVec(k) == CASE k = "BAdd" -> "VAdd" [] k = "BSub" -> "VSub" [] k = "BMul" -> "VMul" [] k = "BDiv" -> "VDiv"
 ScalOps == {"SAdd", "SSub", "SMul", "SDiv"}
 OpSym(k) == CASE k \in {"VAdd", "SAdd"} -> "+" [] k \in {"VSub", "SSub"} -> "-" [] k \in {"VMul", "SMul"} -> "*" [] k \in {"VDiv", "SDiv"} -> "/"
 
@@ -222,6 +224,9 @@ Apply(ty, st, op) ==
     [] k = "ThrLo" -> R(Loop(st, T.lo, T.hi, LAMBDA s, i : Wr(s, t, i, LET x == Rd(s, t, i) IN IF x = U THEN U ELSE VMax(x, op.a))))
     [] k = "ThrUp" -> R(Loop(st, T.lo, T.hi, LAMBDA s, i : Wr(s, t, i, LET x == Rd(s, t, i) IN IF x = U THEN U ELSE VMin(x, op.a))))
     [] k \in VecOps -> VecOpSt(ty, st, t, k)
+    [] k \in BinOps ->     \* slot t := T op O  (operator+ etc.: "retval(*this); return retval op= v": a new object)
+         LET r == VecOpSt(ty, [st EXCEPT !.s[t] = [lo |-> T.lo, hi |-> T.hi, v |-> C(st, t), base |-> 0, cap |-> 0]], t, BinToVec(k)) IN
+         IF r.err THEN E(st) ELSE r
     [] k \in ScalOps -> R(ScalarSt(st, t, OpSym(k), op.a))
     [] k = "Sapyb" ->       \* this = this*a + y*b; "index ranges don't match" is an error
          IF ~SameRange(T, O) THEN E(st)
@@ -242,7 +247,7 @@ Enabled(ty, st, op) ==
   /\ op.k = "MemSet" => (op.a >= 1 /\ op.a <= Len(st.blk))
   /\ op.k = "GrowBy" => (op.a >= 0 /\ op.b >= 0)
   \* integer division by zero is outside the contract of VectorWithOffset<int>::operator/=
-  /\ (op.k = "VDiv" /\ ty = "VI" /\ SameRange(st.s[op.t], st.s[Other(op.t)]))
+  /\ (op.k \in {"VDiv", "BDiv"} /\ ty = "VI" /\ SameRange(st.s[op.t], st.s[Other(op.t)]))
         => \A x \in { C(st, Other(op.t))[j] : j \in 1..VLen(st.s[Other(op.t)]) } : x # 0 /\ x # U
 
 (***************************************************************************)
@@ -343,6 +348,7 @@ PropertyClauses(ty, st, op) ==
 (* it (begin..end), rit (rbegin..rend), cap, cmin, cell (block cell of the *)
 (* first element, 0 = not in the block).                                   *)
 (***************************************************************************)
+SumOf(s) == LET f[k \in 0..Len(s)] == IF k = 0 THEN 0 ELSE Add(f[k - 1], s[k]) IN f[Len(s)]
 SeqMatch(spec, obs) == Len(spec) = Len(obs) /\ \A j \in 1..Len(spec) : spec[j] = U \/ spec[j] = obs[j]
 Rev(s) == [j \in 1..Len(s) |-> s[Len(s) + 1 - j]]
 
@@ -360,6 +366,12 @@ ObsMatch(st, t, ob) ==
   \* aliasing: bound to exactly the cells the specification says, or to none
   /\ ob.cell = T.base
   /\ IsView(T) => (ob.cap = T.cap /\ ob.cmin = T.lo - (T.base - 1))
+  \* Array<1>: sum(), find_max(), find_min() of specified small values
+  /\ ("sum" \in DOMAIN ob /\ \A j \in 1..Len(c) : c[j] # U) =>
+        /\ LET s == SumOf(c) IN s # U => ob.sum = s
+        /\ Len(c) > 0 => ((\A j1 \in 1..Len(c) : c[j1] <= ob.mx /\ c[j1] >= ob.mn)
+                           /\ (\E j2 \in 1..Len(c) : c[j2] = ob.mx)
+                           /\ (\E j3 \in 1..Len(c) : c[j3] = ob.mn))
 
 \* the state the observation describes (values as observed; U where the driver saw garbage)
 VecOfObs(ob) == [lo |-> ob.lo, hi |-> ob.hi, v |-> IF ob.cell > 0 THEN << >> ELSE ob.v, base |-> ob.cell,
@@ -371,7 +383,7 @@ StepOK(ty, pre, op, res, err, post) ==
   LET st == StateOfObs(pre)
       r == Apply(ty, st, op)
   IN /\ StateOK(st)
-     /\ Enabled(ty, st, op) \/ op.k = "VDiv"
+     /\ Enabled(ty, st, op) \/ op.k \in {"VDiv", "BDiv"}
      /\ err = r.err
      /\ (~err /\ op.k \in {"GetAt", "Get"} /\ r.res # U) => res = r.res
      /\ ObsMatch(r.st, 1, post.s[1]) /\ ObsMatch(r.st, 2, post.s[2])
